@@ -146,6 +146,7 @@ def c01(rep, tier, seed):
     suite_table.gen(rep, tier, ["tassign"] + ([] if tier == "quick" else ["select", "arith"]), ("refused_changes_nothing", "operands_unchanged"))
     suite_table.enumerated(rep, "struct", ("operands_unchanged",))
     suite_table.enumerated(rep, "twice", ("derived_independent",))      # sizes 1, 3, 70, 1100
+    suite_vec.gen(rep, tier, ["atype"], ("atomic",))       # a write that fails (type, index, overflow) leaves contents, dtype and fingerprint as they were
     suite_vec.forms(rep, ("operands_unchanged", "derived_independent"))       # every value-returning vector operation x same / wider / incompatible arguments x free vector / live column
     # derived results are new, independent objects whatever was computed before (same sort twice, ...)
     suite_heap.gen(rep, tier, "obst1", ("obs_sort", "contents@other", "name@other"))
@@ -192,7 +193,7 @@ def c16(rep, tier, seed):
     rep.assumptions += HEAP_ASSUME + ["hash collisions of the 61-bit fingerprint are excluded by the small value palette"]
     cl = ("fp_value", "outcome", "fp_order")
     suite_vec.enumerated(rep, "fplaws", cl)
-    suite_vec.forms(rep, ("history_read",))
+    suite_vec.forms(rep, ("history_read", "operands_unchanged"))      # incl. "read-only operations never change it"
     suite_heap.mc(rep, tier, ["alias", "tables", "fp"])
     suite_heap.devs(rep, ["VecFpNotInvalidated", "TableFpMemo"])
     suite_heap.gen(rep, tier, "fp", cl)           # deep interleavings of fingerprint() reads with writes (paths of 6-8 calls)
